@@ -429,7 +429,9 @@ int veng_pair(enum vtp tp, struct vep *cl, struct vep *ac, struct vep *sv, const
     xcm_attr_map_destroy(ca);
     if (!cl->s) { snprintf(why, why_cap, "xcm_connect_a(%s) failed: %s", caddr, strerror(errno)); xcm_attr_map_destroy(aa); return -1; }
     int rc = -1;
-    for (int it = 0; it < 20000; it++) {
+    int max_rounds = o && o->max_rounds ? o->max_rounds : 20000;
+    for (int it = 0; it < max_rounds; it++) {
+        if (o && o->pump) o->pump(o->pump_arg);
         if (!ac->s) {
             struct vs_scope sc = { .active = true, .nonblocking = true, .api = "xcm_accept_a", .ep = ac->id, .plan = &ac->plan };
             vs_enter(&sc);
@@ -439,7 +441,7 @@ int veng_pair(enum vtp tp, struct vep *cl, struct vep *ac, struct vep *sv, const
             if (!ac->s && se != EAGAIN) { snprintf(why, why_cap, "xcm_accept_a failed: %s", strerror(se)); break; }
         }
         int fc = vx_finish(cl); int fce = errno;
-        if (fc < 0 && fce != EAGAIN) { snprintf(why, why_cap, "client finish during setup: %s", strerror(fce)); break; }
+        if (fc < 0 && fce != EAGAIN) { snprintf(why, why_cap, "client finish during setup: %s", strerror(fce)); errno = fce; break; }
         int fa = -1, fae = EAGAIN;
         if (ac->s) { fa = vx_finish(ac); fae = errno; }
         if (fa < 0 && fae != EAGAIN) { snprintf(why, why_cap, "accepted finish during setup: %s", strerror(fae)); break; }
